@@ -19,7 +19,7 @@ import common
 from common import frac_str, run_driver
 
 TRUSTED = [
-    'Lean 4.33.0 kernel; axioms of every theorem in Props/C08.lean within {propext, Classical.choice, Quot.sound}',
+    'Lean 4.33.0 kernel; axioms of every theorem in Props/C08*.lean within {propext, Classical.choice, Quot.sound}',
     'numpy\'s own array algorithms on object arrays: the wiring of every operator is EXTRACTED from numpy with probe objects on '
     'every run (and cross-checked against numpy on float arrays); what is verified is that coniclifts Expressions follow it',
     'harness/props/c08.py (probe algebra, program generator, canonicalisation of ScalarExpressions)',
